@@ -70,3 +70,55 @@ pub proof fn lemma_ipow2_pos(k: nat)
 {
     if k > 0 { lemma_ipow2_pos((k - 1) as nat); }
 }
+
+// ---- commitments and the two-secret Schnorr-like protocol (NISPSecrets) --------------------------------------
+/// value == g^x * h^r mod n
+pub open spec fn commit_opens(value: int, g: int, x: int, h: int, r: int, n: int) -> bool {
+    value == (pow_mod(g, x, n) * pow_mod(h, r, n)) % n
+}
+
+/// Fiat-Shamir challenge of nisp2sec: H(g1 || h1 || C || t) over decimal strings
+pub open spec fn nisp2sec_challenge<CS: CLCiphersuite>(g1: int, h1: int, c: int, t: int) -> int {
+    from_digits_be(hash_str::<CS::HashAlg>(dec_string(g1) + dec_string(h1) + dec_string(c) + dec_string(t)))
+}
+
+/// verifier's predicate: g1^s1 * h1^s2 == t * C^c (mod n)
+pub open spec fn nisp2sec_accepts<CS: CLCiphersuite>(p: NISPSecrets, c: CL03Commitment, g1: int, h1: int, n: int) -> bool {
+    let ch = nisp2sec_challenge::<CS>(g1, h1, c.value@, p.t@);
+    (pow_mod(g1, p.s1@, n) * pow_mod(h1, p.s2@, n)) % n == (p.t@ * pow_mod(c.value@, ch, n)) % n
+}
+
+/// C19: a blinding term r masks `secret * challenge` for a 256-bit challenge when floor(r / c) >= 2^64 for every
+/// c < 2^256, i.e. r >= 2^320 (then |floor((r + c*x)/c) - x| = floor(r/c) >= 2^64)
+pub open spec fn mask_ok(r: int) -> bool {
+    r >= ipow(2, 320)
+}
+
+pub proof fn lemma_ipow2_mono(a: nat, b: nat)
+    requires a <= b,
+    ensures ipow(2, a) <= ipow(2, b),
+    decreases b,
+{
+    if a < b {
+        lemma_ipow2_mono(a, (b - 1) as nat);
+        lemma_ipow2_pos((b - 1) as nat);
+    }
+}
+
+// ---- multi-base commitments -------------------------------------------------------------------------------------
+/// unrevealed indexes default to all positions 0..n
+pub open spec fn eff_indexes(idx: Option<&[usize]>, n: nat) -> Seq<usize> {
+    match idx { Some(s) => s@, None => Seq::new(n, |k: int| k as usize) }
+}
+
+/// prod_{t < k} bases[idx[t]] ^ msgs[idx[t]]  (each factor reduced, product not reduced: as the code computes it)
+pub open spec fn multi_prod(bases: Seq<Integer>, msgs: Seq<CL03Message>, idx: Seq<usize>, n: int, k: int) -> int
+    decreases k,
+{
+    if k <= 0 { 1 } else { multi_prod(bases, msgs, idx, n, k - 1) * pow_mod(bases[idx[k - 1] as int]@, msgs[idx[k - 1] as int].value@, n) }
+}
+
+/// value == prod bases[i]^m_i * h^r mod n over the positions idx
+pub open spec fn commit_multi_opens(value: int, bases: Seq<Integer>, msgs: Seq<CL03Message>, idx: Seq<usize>, h: int, r: int, n: int) -> bool {
+    value == (multi_prod(bases, msgs, idx, n, idx.len() as int) * pow_mod(h, r, n)) % n
+}
